@@ -305,3 +305,50 @@ pub fn add_measurements(gs: &mut Vec<AG>, n: usize, r: &mut StdRng) {
         }
     }
 }
+
+// ---------------------------------------------------------------------------------------
+// opt-in GENERIC phases (rz / rx / parity-phase angles n/d * pi with d in {3,5,6,7,8,12,16}): the floating-point clause
+// ---------------------------------------------------------------------------------------
+
+/// Give the phase gates of an abstract circuit generic angles with probability `p` each, and turn a fraction of the
+/// fixed-angle one-qubit gates (Z, S, T, ...) into rz / rx with a generic angle. Returns the number of generic angles.
+pub fn make_generic_circuit(cj: &mut Value, r: &mut StdRng, p: f64) -> usize {
+    let mut n = 0;
+    for g in cj["gates"].as_array_mut().unwrap() {
+        let t = g["t"].as_str().unwrap().to_string();
+        let phase_gate = matches!(t.as_str(), "ZPhase" | "XPhase" | "ParityPhase");
+        let fixed = matches!(t.as_str(), "Z" | "S" | "T" | "Sdg" | "Tdg" | "NOT");
+        if (phase_gate && r.random_bool(p)) || (fixed && r.random_bool(p * 0.5)) {
+            if fixed {
+                g["t"] = json!(if r.random_bool(0.5) { "ZPhase" } else { "XPhase" });
+            }
+            g["ph"] = crate::gens::generic_phase(r);
+            n += 1;
+        }
+    }
+    n
+}
+
+/// a seeded unitary circuit with at least one generic angle: 1..=maxq qubits, <= maxlen gates, at most `max3` three-qubit gates
+pub fn generic_circuit(r: &mut StdRng, maxq: usize, maxlen: usize, pp: bool, max3: usize) -> Value {
+    loop {
+        let n = r.random_range(1..=maxq);
+        let len = r.random_range(1..=maxlen);
+        let mut al = Alphabet { pp, ..Alphabet::unitary() };
+        if n < 3 {
+            al.threeq = vec![];
+        }
+        if n < 2 {
+            al.twoq = vec![];
+            al.pp = false;
+        }
+        let gs = random_circuit(r, n, len, &al);
+        if gs.iter().filter(|g| g.qs.len() == 3 && (g.t == "CCZ" || g.t == "TOFF")).count() > max3 {
+            continue;
+        }
+        let mut cj = ag_json(n, &gs);
+        if make_generic_circuit(&mut cj, r, 0.7) > 0 {
+            return cj;
+        }
+    }
+}
